@@ -4,6 +4,7 @@ package c07
 import (
 	"bytes"
 	"fmt"
+	"golang.org/x/text/language"
 	"sort"
 	"strings"
 	"testing"
@@ -333,6 +334,17 @@ func mutate(t *rapid.T, b []byte) []byte {
 	return b
 }
 
+var selectionLanguages = []language.Tag{language.English, language.Japanese, language.Greek, language.Russian, language.Arabic, language.Und, language.MustParse("yi"), language.MustParse("zh-Hant")}
+
+func scriptTags(info *gtab.Info) []string {
+	var res []string
+	for tag := range info.ScriptList {
+		res = append(res, tag.String())
+	}
+	sort.Strings(res)
+	return res
+}
+
 func TestC07Decoded(t *testing.T) {
 	rapid.Check(t, func(t *rapid.T) {
 		env := lookups.GenEnv(false).Draw(t, "env")
@@ -393,8 +405,36 @@ func TestC07Decoded(t *testing.T) {
 		if pn1 == nil && pn2 == nil && render(a) != render(b) {
 			t.Fatalf("two decodings of the same bytes shape differently:\n  probe %s\n  first  %s\n  second %s\n%s", render(probe), render(a), render(b), c.dump)
 		}
+		// lookup selection: repeated calls, and the second decoding, choose
+		// the same lookups for every language (also for languages none of the
+		// font's scripts matches, where a fallback entry is used)
+		selLabel := ""
+		for _, lang := range selectionLanguages {
+			var first []gtab.LookupIndex
+			for rep := 0; rep < 6; rep++ {
+				in := info
+				if rep%2 == 1 {
+					in = info2
+				}
+				var got []gtab.LookupIndex
+				if pn := guard.Try(func() { got = in.FindLookups(lang, nil) }); pn != nil {
+					t.Fatalf("FindLookups(%v) panicked: %s\n%s", lang, pn, c.dump)
+				}
+				if rep == 0 {
+					first = got
+				} else if fmt.Sprint(got) != fmt.Sprint(first) {
+					t.Fatalf("FindLookups(%v, nil) is not a function of the table: call 1 gave %v, call %d gave %v\nscripts: %v\n%s", lang, first, rep+1, got, scriptTags(info), c.dump)
+				}
+			}
+		}
+		if len(info.ScriptList) > 1 {
+			selLabel = "selection-several-scripts"
+		}
 		mutated := !bytes.Equal(data, enc)
 		labels := []string{fmt.Sprintf("kind-%v", kind), "mode-" + mode.String()}
+		if selLabel != "" {
+			labels = append(labels, selLabel)
+		}
 		if mutated {
 			labels = append(labels, "mutated-accepted")
 		}
